@@ -11,8 +11,6 @@ From KV.Kcp Require Import Kcp Step Net Live.
 Import ListNotations.
 Local Open Scope Z_scope.
 
-Definition emits_cmd (o : list bytes) (cmd wnd : Z) : Prop :=
-  exists d segs s, In d o /\ d = concat (map encode_seg segs) /\ In s segs /\ s_cmd s = cmd /\ s_wnd s = wnd.
 
 (* 1. standstill: with a zero remote window no flush numbers (hence transmits) a new segment *)
 Theorem c03_sender_standstill :
@@ -39,7 +37,6 @@ Proof. exact probe_fires. Qed.
 Print Assumptions c03_probe_fires.
 
 (* 3. back-off bounds, for every operation sequence *)
-Definition probe_inv (k : kcp) : Prop := probe_wait k = 0 \/ 500 <= probe_wait k <= 120000.
 
 Theorem c03_probe_backoff :
   forall ops k k' outs, inv k -> probe_inv k -> Forall op_ok ops -> run k ops = Some (k', outs) -> probe_inv k'.
